@@ -158,3 +158,199 @@ Proof. vm_compute. repeat split. Qed.
 Example C03_ex_mark_silent :
   exists s ds, update 16383 1 2 3 ex_state = Ok (s, ds) /\ ds = [].
 Proof. eexists. eexists. vm_compute. split; reflexivity. Qed.
+
+(* ==== composition with C05 ==== *)
+(* C03 above is stated on the in-order NODE LIST "that File.tree holds"; C05 (props/C05.v) says the red-black
+   tree IS that list.  This block closes the gap inside Coq: File.Update is transcribed once more against the
+   C05 tree API exactly as file.go uses it (coq/theories/Compose/TreeFileModel.v: tupdate) and proved to compute
+   on the tree what the list model computes on the list - including the one thing C05 does not have, the
+   in-place key rewrites through iterators (map_keys).  docs/COMPOSITION.md, section "C03 on C05".
+
+   Vocabulary (coq/theories/Compose):
+     tree, elems, bst, is_redblack, ids, ids_ok, item_of, next_in, prev_in, min_id, it_max, tsize, height: C05
+     kvs tr = the (key, value) items of elems tr: the tracker state the tree stands for
+     map_keys p f tr: f applied to the key of every node whose id satisfies p; set_key it k = map_keys (=? it) (fun _ => k)
+     it_item / it_next / it_prev / t_delete / t_insert / t_find_le: Iterator.Item, Next, Prev, DeleteWithIterator,
+       Insert, FindLE as Model.step of C05 defines them, with results TOk / TPanic class / TAssert / TUnspec
+     tupdate alloc t pos ins del tr, tnew_file, trun_file: File.Update, NewFile, NewFile + Updates ON THE TREE
+     alloc: the node index malloc() hands out, as a function of the tree at the time of the call;
+       alloc_ok alloc n: on trees of at most n nodes it is a valid index that is not live (C03_tree_vocabulary) *)
+From Coq Require Import Bool Lia.
+From Herc Require Import RBTree.Model RBTree.Spec RBTree.Arena RBTree.InsertProofs RBTree.MapProofs
+  RBTree.LookupProofs RBTree.HeightProofs.
+From Herc Require Import Compose.TreeFileKeys Compose.TreeFileModel Compose.TreeFileLists Compose.TreeFileLoops
+  Compose.TreeFileSim Compose.TreeFile.
+
+Theorem C03_tree_vocabulary :
+  (forall tr, kvs tr = map (fun e => (ekey e, eval e)) (elems tr)) /\
+  (forall alloc n, alloc_ok alloc n <->
+     forall tr', (length (ids tr') <= n)%nat -> ~ In (alloc tr') (ids tr') /\ 0 < alloc tr' < neg_limit) /\
+  (forall it k tr, set_key it k tr = map_keys (Z.eqb it) (fun _ => k) tr) /\
+  (forall s, ssorted s <-> match s with [] => True | (k, _) :: r => inc k r end).
+Proof. exact tree_vocabulary. Qed.
+Print Assumptions C03_tree_vocabulary.
+
+(* (1) rewriting keys in place: the entry list is rewritten pointwise; ids, shape, colours and values
+   (skeleton), the red-black invariant, every id-based navigation and Len are unchanged; the result is a search
+   tree exactly when the rewritten in-order key list is still strictly increasing - no rebalancing *)
+Theorem C03_tree_map_keys : forall p f t,
+  elems (map_keys p f t) = map (rewrite_key p f) (elems t) /\
+  ids (map_keys p f t) = ids t /\
+  skeleton (map_keys p f t) = skeleton t /\
+  (is_redblack t -> is_redblack (map_keys p f t)) /\
+  (bst (map_keys p f t) <-> sorted (map (rewrite_key p f) (elems t))) /\
+  (sortedb (keys (map (rewrite_key p f) (elems t))) = true -> bst (map_keys p f t)) /\
+  (forall m, item_of m (map_keys p f t) =
+             match item_of m t with Some (k, v) => Some ((if p m then f k else k), v) | None => None end) /\
+  (forall m up, next_in m (map_keys p f t) up = next_in m t up) /\
+  (forall m down, prev_in m (map_keys p f t) down = prev_in m t down) /\
+  min_id (map_keys p f t) = min_id t /\ it_max (map_keys p f t) = it_max t /\
+  tsize (map_keys p f t) = tsize t.
+Proof. exact map_keys_spec. Qed.
+Print Assumptions C03_tree_map_keys.
+
+(* on the arena image (the cells C05 compares with the real Allocator.storage): only the key field of the
+   rewritten cells changes; parent / left / right links, colours, values and the tree header stay *)
+Theorem C03_tree_map_keys_arena : forall p f t,
+  cells 0 (map_keys p f t) = map (rewrite_cell p f) (cells 0 t) /\ header_of (map_keys p f t) = header_of t.
+Proof. exact map_keys_arena. Qed.
+Print Assumptions C03_tree_map_keys_arena.
+
+(* (2) the list primitives of C03's model are what the C05 tree does.  A tree whose entry list is a ++ e :: b
+   with the iterator at e (node id eid e): Item, Next, Prev answer like the list position; a key written
+   through the iterator changes that entry only; DeleteWithIterator removes that entry only and EVERY OTHER
+   ENTRY KEEPS ITS NODE ID (so the iterators file.go holds across its deletes stay valid); the key-shifting
+   loop from the iterator to the end rewrites exactly the entries from e on *)
+Theorem C03_tree_primitives_at : forall tr a e b,
+  elems tr = a ++ e :: b -> NoDup (ids tr) -> ids_ok tr ->
+  it_item (eid e) tr = TOk (Some (kv e)) /\
+  it_next (eid e) tr = TOk (pos_fwd (s_min b)) /\
+  it_prev (eid e) tr = TOk (pos_bwd (s_max a)) /\
+  (forall k, elems (set_key (eid e) k tr) = a ++ (eid e, k, eval e) :: b) /\
+  (bst tr -> is_redblack tr ->
+   exists tr', t_delete (eid e) tr = TOk tr' /\ elems tr' = a ++ b /\ bst tr' /\ is_redblack tr') /\
+  (forall d fuel, (length (e :: b) < fuel)%nat ->
+   exists tr', tshift_loop fuel d (eid e) tr = TOk tr' /\ elems tr' = a ++ map (shift_entry d) (e :: b) /\
+               (is_redblack tr -> is_redblack tr')).
+Proof. exact tree_primitives_at. Qed.
+Print Assumptions C03_tree_primitives_at.
+
+(* Insert is the model's sorted insert-if-absent; FindLE splits the entry list where the model's find_le splits
+   the node list; Len, Min, Max *)
+Theorem C03_tree_primitives_global : forall alloc tr,
+  bst tr -> NoDup (ids tr) -> ids_ok tr ->
+  (forall k v, kvs (fst (t_insert alloc k v tr)) = File.Model.insert k v (kvs tr)) /\
+  (forall x L o R, match elems tr with e0 :: _ => ekey e0 <= x | [] => True end ->
+     find_le x [] (kvs tr) = Some (L, o, R) ->
+     exists a e b, elems tr = a ++ e :: b /\ t_find_le x tr = TOk (eid e) /\
+                   L = map kv a /\ o = kv e /\ R = map kv b) /\
+  tsize tr = Z.of_nat (length (kvs tr)) /\
+  (forall e0 tl, elems tr = e0 :: tl -> deref (min_id tr) tr = TOk (kv e0)) /\
+  (forall l x, elems tr = l ++ [x] -> deref (it_max tr) tr = TOk (kv x) /\ fst (kv x) = klast 0 (kvs tr)).
+Proof. exact tree_primitives_global. Qed.
+Print Assumptions C03_tree_primitives_global.
+
+(* the same in the form of C05_iterators_stable: an iterator other than the one the operation is applied to
+   shows the same item after DeleteWithIterator, Insert and a key rewrite *)
+Theorem C03_tree_iterators_stable : forall alloc tr m,
+  bst tr -> NoDup (ids tr) ->
+  (forall it tr', t_delete it tr = TOk tr' -> m <> it -> item_of m tr' = item_of m tr) /\
+  (forall k v, m <> alloc tr -> item_of m (fst (t_insert alloc k v tr)) = item_of m tr) /\
+  (forall it k, m <> it -> item_of m (set_key it k tr) = item_of m tr).
+Proof. exact tree_iterators_stable. Qed.
+Print Assumptions C03_tree_iterators_stable.
+
+(* the simulation: whenever the list model accepts a request on the items of a red-black search tree and
+   returns a state with strictly increasing keys, File.Update run through the tree API returns a red-black
+   search tree with exactly that state and the same Updater calls - for every choice of node indexes the
+   allocator can make; and where the list model panics the tree-level Update panics with the same class *)
+Theorem C03_tree_update_simulates : forall alloc t pos ins del tr s' ds,
+  is_redblack tr /\ bst tr /\ NoDup (ids tr) /\ ids_ok tr -> alloc_ok alloc (S (length (ids tr))) ->
+  update t pos ins del (kvs tr) = Ok (s', ds) -> ssorted s' ->
+  exists tr', tupdate alloc t pos ins del tr = TOk (tr', ds) /\
+    (is_redblack tr' /\ bst tr' /\ NoDup (ids tr') /\ ids_ok tr') /\ kvs tr' = s'.
+Proof. exact tupdate_simulates. Qed.
+Print Assumptions C03_tree_update_simulates.
+
+Theorem C03_tree_update_panics : forall alloc t pos ins del tr c,
+  is_redblack tr /\ bst tr /\ NoDup (ids tr) /\ ids_ok tr ->
+  update t pos ins del (kvs tr) = Panic c -> tupdate alloc t pos ins del tr = TPanic c.
+Proof. exact tupdate_panics_like_model. Qed.
+Print Assumptions C03_tree_update_panics.
+
+(* (3) the composed statement: the tracker AS A TREE is the plain array.  For a red-black search tree whose
+   items are a well-formed tracker state and a valid request, Update through the tree primitives gives a
+   red-black search tree (of logarithmic depth, distinct valid node ids) whose items are what the list model
+   returns, and whose lines are the array edit of the lines before *)
+Theorem C03_update_refines_on_tree : forall alloc t pos ins del tr,
+  is_redblack tr /\ bst tr /\ NoDup (ids tr) /\ ids_ok tr ->
+  WF (kvs tr) -> validb t pos ins del (flatten (kvs tr)) = true ->
+  alloc_ok alloc (S (length (ids tr))) ->
+  exists tr' ds, tupdate alloc t pos ins del tr = TOk (tr', ds) /\
+    (is_redblack tr' /\ bst tr' /\ NoDup (ids tr') /\ ids_ok tr') /\
+    Z.of_nat (height tr') <= 2 * Z.log2 (tsize tr' + 1) /\
+    update t pos ins del (kvs tr) = Ok (kvs tr', ds) /\ WF (kvs tr') /\
+    flatten (kvs tr') = arr_update t pos ins del (flatten (kvs tr)) /\
+    len (kvs tr') = len (kvs tr) + ins - del.
+Proof. exact update_refines_on_tree. Qed.
+Print Assumptions C03_update_refines_on_tree.
+
+(* out-of-range requests are rejected by the tree-level Update as well *)
+Theorem C03_update_rejects_on_tree : forall alloc t pos ins del tr,
+  is_redblack tr /\ bst tr /\ NoDup (ids tr) /\ ids_ok tr -> WF (kvs tr) ->
+  (t < 0 \/ MaxU32 <= t \/ pos < 0 \/ MaxU32 < pos \/ ins < 0 \/ del < 0 \/ MaxU32 < ins \/ MaxU32 < del \/
+   ((ins <> 0 \/ del <> 0) /\ (len (kvs tr) < pos \/ len (kvs tr) < pos + del))) ->
+  exists c, tupdate alloc t pos ins del tr = TPanic c.
+Proof. exact update_rejects_on_tree. Qed.
+Print Assumptions C03_update_rejects_on_tree.
+
+(* NewFile followed by any valid operation sequence, run on the tree: every call succeeds, the tree reached is
+   a red-black search tree of logarithmic depth whose items are the list model's state, and its lines and
+   length are those of the plain array (the statement holds for every prefix, hence for every reachable state) *)
+Theorem C03_sequences_on_tree : forall alloc t0 n0 ops,
+  0 <= t0 <= MaxU32 -> 0 <= n0 <= MaxU32 ->
+  ops_validb (repeat t0 (Z.to_nat n0)) ops = true ->
+  alloc_ok alloc (2 + 2 * length ops) ->
+  exists tr ds, trun_file alloc t0 n0 ops = TOk (tr, ds) /\
+    (is_redblack tr /\ bst tr /\ NoDup (ids tr) /\ ids_ok tr) /\
+    Z.of_nat (height tr) <= 2 * Z.log2 (tsize tr + 1) /\
+    run_file t0 n0 ops = Ok (kvs tr, ds) /\ WF (kvs tr) /\
+    flatten (kvs tr) = arr_run (repeat t0 (Z.to_nat n0)) ops /\
+    len (kvs tr) = alen (arr_run (repeat t0 (Z.to_nat n0)) ops).
+Proof. exact sequences_on_tree. Qed.
+Print Assumptions C03_sequences_on_tree.
+
+(* the allocator hypothesis is satisfiable whenever there is room: "the smallest free positive index" is a
+   valid choice on every tree of at most n nodes, n + 1 < 2^32 - 1 (it reuses just-freed indexes) *)
+Theorem C03_tree_alloc_exists : forall n, Z.of_nat n + 1 < neg_limit -> alloc_ok first_free n.
+Proof. exact first_free_ok. Qed.
+Print Assumptions C03_tree_alloc_exists.
+
+(* ---------- non-vacuity of the composition ---------- *)
+(* the four-interval state ex_state above as a TREE: NewFile(5, 9) and one replacement, run on the tree *)
+Definition ex_tree : tree :=
+  match trun_file first_free 5 9 [(7 + 3 * 16384, 2, 2, 2)] with TOk (tr, _) => tr | _ => E end.
+Example C03_ex_tree_state : kvs ex_tree = ex_state /\ rb_okb ex_tree = true /\ ids ex_tree = [1; 3; 4; 2].
+Proof. vm_compute. repeat split. Qed.
+Example C03_ex_tree_wf : is_redblack ex_tree /\ bst ex_tree /\ NoDup (ids ex_tree) /\ ids_ok ex_tree.
+Proof.
+  destruct (rb_okb_sound ex_tree) as [H1 H2]; [vm_compute; reflexivity|].
+  split; [exact H1|]. split; [exact H2|]. replace (ids ex_tree) with [1; 3; 4; 2] by (vm_compute; reflexivity).
+  unfold ids_ok. replace (ids ex_tree) with [1; 3; 4; 2] by (vm_compute; reflexivity). split.
+  - repeat (constructor; [cbn [In]; intuition discriminate|]). constructor.
+  - intros i H. cbn [In] in H. unfold neg_limit. intuition (subst; lia).
+Qed.
+Example C03_ex_tree_alloc : alloc_ok first_free (S (length (ids ex_tree))).
+Proof. apply first_free_ok. vm_compute. reflexivity. Qed.
+(* the replacement of C03_ex_update on the tree: the nodes 3 and 4 are deleted through iterators and both freed
+   indexes are handed out again by the two Inserts that follow *)
+Example C03_ex_update_on_tree :
+  exists tr' ds, tupdate first_free (7 + 3 * 16384) 1 2 5 ex_tree = TOk (tr', ds) /\
+    kvs tr' = [(0, 5); (1, 49159); (3, 5); (6, TreeEnd)] /\ flatten (kvs tr') = [5; 49159; 49159; 5; 5; 5] /\
+    ids tr' = [1; 3; 4; 2] /\ rb_okb tr' = true /\
+    ds = [(49159, 49159, 2); (49159, 5, -1); (49159, 49159, -2); (49159, 5, -2)].
+Proof. eexists. eexists. vm_compute. repeat split. Qed.
+(* rejection on the tree *)
+Example C03_ex_rejects_on_tree :
+  tupdate first_free 1 10 1 0 ex_tree = TPanic PAfterEnd /\ tupdate first_free 1 3 0 7 ex_tree = TPanic PDelAfterEnd.
+Proof. vm_compute. split; reflexivity. Qed.
